@@ -191,7 +191,8 @@ def run_one(tape, tier, prop):
             for e in runs["L"].emitted:
                 if any(x[0] == "M" for x in e["pt"]):
                     continue
-                bad = [g for g in e["lines"] if g != g.lower() and all(v == v.lower() for n, i in e["pt"] if n[0] == "A"
+                # (keyboard walks, context strings and other non-alpha values keep whatever case they were trained with)
+                bad = [g for g in e["lines"] if g != g.lower() and all(v == v.lower() for n, i in e["pt"] if n[0] != "C"
                                                                     for v in refL.vars[n][i]["values"])]
                 if bad:
                     problems.append(("all_lower_emits_upper_case", {"guess": bad[0], "pt": repr(e["pt"])}))
